@@ -32,9 +32,13 @@ LEVEL_TEXT = ("Lean 4 theorems over a transliteration of dask/blockwise.py's coo
               "requested keys, only original tasks, and is closed under dependencies, hence evaluates requested keys to "
               "the same value trees), `fuse_annotations_tighten` over the rule table EXTRACTED from the source on every run "
               "(retries/priority >= every input, resources per key >=, workers subset of every input, allow_other_workers "
-              "implies every input's). Fusion (`rewrite_blockwise`/`optimize_blockwise`) is validated, not proved: fused and "
-              "unfused graphs are evaluated on random stacks and block subsets and compared with NumPy, and every fused "
-              "layer is re-checked against the coordinate model.")
+              "implies every input's), `fresh_names_distinct` (in the transliterated index bookkeeping of rewrite_blockwise — "
+              "live-list for-loop, substitution dicts, one name supply — the generator names given to the contracted indices "
+              "of all fused producers are pairwise distinct: sibling contraction layers never share a contracted index). "
+              "Fusion VALUES (`rewrite_blockwise`/`optimize_blockwise`) are validated, not proved: the fused index table of "
+              "every rewrite_blockwise call is diffed against the model, fused and unfused graphs are evaluated on random "
+              "stacks (incl. a stream of consumers of sibling contraction producers with unequal block counts, diamonds) and "
+              "block subsets and compared with NumPy, and every fused layer is re-checked against the coordinate model.")
 LEVEL_NOTE = ("Trusted: Lean kernel + standard axioms; the hand-written model, tied by function-level differential tests "
               "(_get_coord_mapping, _cull_dependencies, _make_blockwise_graph, broadcast_dimensions, _lol_product, "
               "_fuse_annotations, HighLevelGraph.cull) and by the AST extractor for the annotation rule table; NumPy and "
@@ -579,8 +583,13 @@ def case_stack(ctx, inp):
             h = optimize_blockwise(g, keys=sub) if opt else g
             if opt and len(h.layers) < len(g.layers):
                 ctx.branch("fused-layers")
-            c = h.cull(set(sub))
-            cd = dict(c)
+            try:
+                c = h.cull(set(sub))
+                cd = dict(c)
+            except Exception as e:
+                ctx.fail(("fused " if opt else "") + "graph cannot be culled/materialised: " + type(e).__name__ + ": " + str(e)[:160],
+                         observed={"opt": opt, "keys": list(map(str, sub))})
+                continue
             try:
                 got = get_sync(cd, sub)
             except Exception as e:
@@ -598,13 +607,114 @@ def case_stack(ctx, inp):
             for name, layer in h.layers.items():
                 if not isinstance(layer, Blockwise):
                     continue
+                try:
+                    layer.dims
+                except ValueError as e:
+                    ctx.fail(("fused " if opt else "") + "Blockwise layer is inconsistent: " + str(e)[:160], observed=str(name))
+                    continue
                 _check_real_layer(ctx, layer, names, syms, fused=opt)
         # full result through the public entry point (default optimisation pipeline)
-        r = d.compute(scheduler="sync")
+        try:
+            r = d.compute(scheduler="sync")
+        except Exception as e:
+            ctx.fail("compute() raised on a program NumPy evaluates: " + type(e).__name__ + ": " + str(e)[:160])
+            r = x
         if not _close(r, x):
             ctx.fail("dask result differs from NumPy", observed=np.asarray(r).tolist(), expected=np.asarray(x).tolist())
     for o in set(U.prog_ops(prog)):
         ctx.note("op:" + o.split(":")[0])
+
+
+def _bl_sexp(layer, litnames):
+    """a real Blockwise layer as the `rewrite` model sees it (strings; literal arguments get a name per object)"""
+    from dask._task_spec import TaskRef
+    ents = []
+    for nm, ind in layer.indices:
+        if ind is None:
+            key = id(nm)
+            litnames.setdefault(key, "lit%d" % len(litnames))
+            ents.append([litnames[key], None])
+        else:
+            ents.append([str(nm), [str(s) for s in ind]])
+    na = [[str(k), (len(v) if isinstance(v, tuple) else 1)] for k, v in layer.new_axes.items()]
+    return [str(layer.output), [str(s) for s in layer.output_indices], ents, na]
+
+
+def _canon_fused(out_ind, ents, new_axes, known):
+    """rename the fresh contracted names (symbols not in `known`) by first appearance: the assignment of generator names to
+    the members of the Python set `contracted` is unspecified"""
+    ren = {}
+
+    def r(s):
+        if s in known:
+            return s
+        if s not in ren:
+            ren[s] = "#%d" % len(ren)
+        return ren[s]
+    e2 = [[n, None if ind is None else [r(s) for s in ind]] for n, ind in ents]
+    return [[r(s) for s in out_ind], e2, sorted([r(k), v] for k, v in new_axes)], len(ren)
+
+
+def case_rewrite(ctx, inp):
+    """function level: every rewrite_blockwise call that optimize_blockwise makes for a program, against the model"""
+    import numpy as np
+    import dask.blockwise as dbw
+    from dask.core import flatten
+    prog = inp["prog"]
+    with np.errstate(all="ignore"):
+        try:
+            U.run_prog(prog, "np")
+        except Exception:
+            ctx.note("numpy-invalid-program")
+            return
+        d = U.run_prog(prog, "da")
+    calls = []
+    orig = dbw.rewrite_blockwise
+
+    def spy(inputs):
+        inputs = list(inputs)
+        pre = [(l, dict(l.new_axes)) for l in inputs]   # the root's new_axes dict is mutated in place by the call
+        out = orig(inputs)
+        calls.append((pre, out))
+        return out
+    dbw.rewrite_blockwise = spy
+    try:
+        dbw.optimize_blockwise(d.__dask_graph__(), keys=list(flatten(d.__dask_keys__())))
+    finally:
+        dbw.rewrite_blockwise = orig
+    for pre, out in calls:
+        if len(pre) < 2:
+            continue
+        lit = {}
+        layers = []
+        known = set()
+        for l, na in pre:
+            s = _bl_sexp(l, lit)
+            s[3] = [[str(k), (len(v) if isinstance(v, tuple) else 1)] for k, v in na.items()]
+            layers.append(s)
+            known |= set(s[1]) | {x for _, ind in s[2] if ind is not None for x in ind}
+        m = ctx.lean(Sym("rewrite"), layers, str(out.output))
+        real = _bl_sexp(out, lit)
+        if not _model_ok(m):
+            ctx.disagree("rewrite_blockwise (model failed)", m, real)
+            continue
+        m_out, m_ents, m_na, m_allocs = m[1]
+        mc, m_nfresh = _canon_fused(m_out, m_ents, m_na, known)
+        rc, r_nfresh = _canon_fused(real[1], real[2], real[3], known)
+        ctx.eq("rewrite_blockwise fused index table (fresh names up to renaming)", mc, rc)
+        total = sum(len(a) for a in m_allocs)
+        if total >= 2:
+            ctx.branch("rewrite-several-fresh-names")
+        if len([a for a in m_allocs if a]) >= 2:
+            ctx.branch("rewrite-several-contracting-producers")
+        # every producer with at most one contracted index: the generator names themselves must agree
+        if all(len(a) <= 1 for a in m_allocs):
+            ctx.eq("rewrite_blockwise fused index table (exact names)", [m_out, m_ents, sorted(m_na)], [real[1], real[2], sorted(real[3])])
+        ctx.branch("rewrite-call")
+        if len(pre) >= 3:
+            ctx.branch("rewrite-three-or-more-layers")
+    if not calls:
+        ctx.note("no-rewrite-call")
 
 
 def _check_real_layer(ctx, layer, names, syms, fused=False):
@@ -630,6 +740,12 @@ def _check_real_layer(ctx, layer, names, syms, fused=False):
                      + (" (fused layer)" if fused else ""), observed={"culled": real_cd, "task": real_td, "key": str(k)})
         mc = ctx.lean(Sym("culldeps"), msexp, list(k[1:]))
         ctx.eq("_cull_dependencies (real layer)", [mc[0], U.canon_keys(mc[1]) if _model_ok(mc) else None], [Sym("ok"), real_cd])
+    contracted = {s for _, ind in layer.indices if ind is not None for s in ind} - set(layer.output_indices)
+    if fused and len(contracted) >= 2:
+        ctx.branch("fused-layer-with-several-contracted-indices")
+        nbs = {layer.dims.get(s) for s in contracted}
+        if len(nbs) >= 2:
+            ctx.branch("fused-sibling-contractions-with-unequal-block-counts")
     if layer.concatenate:
         ctx.branch("real-layer-concatenate")
     if len({a for a, i in layer.indices if i is not None}) < sum(1 for a, i in layer.indices if i is not None):
@@ -753,7 +869,57 @@ def gen_ann(rng, rich=True):
 # ------------------------------------------------------------------------------------------------
 
 CASES = {"coordmap": case_coordmap, "lol": case_lol, "layer": case_layer, "fuseann": case_fuseann,
-         "hlgcull": case_hlgcull, "stack": case_stack, "annot": case_annot}
+         "hlgcull": case_hlgcull, "stack": case_stack, "annot": case_annot, "rewrite": case_rewrite}
+
+
+def gen_siblings(rng):
+    """A consumer of several sibling contraction producers. All producers yield the same output shape with the SAME
+    chunks on the kept axes (so that no rechunk layer separates them from the consumer) but their contracted axes have
+    different lengths / block counts (1 block vs n blocks, m vs n)."""
+    nd_out = rng.randint(0, 2)
+    out_shape = [rng.randint(1, 3) for _ in range(nd_out)]
+    out_chunks = U.rand_chunks(rng, out_shape)
+    salt = [0]
+
+    def producer():
+        salt[0] += 1
+        kind = rng.choice(["bwlist", "bwlist", "bwlist", "bwsum", "bwc", "mb_drop"])
+        ax = rng.randint(0, nd_out)
+        n = rng.randint(1, 5)
+        t = rng.random()
+        cax = [n] if t < 0.35 else ([1] * n if t < 0.6 else U.rand_comp(rng, n))
+        shape = out_shape[:ax] + [n] + out_shape[ax:]
+        chunks = out_chunks[:ax] + [cax] + out_chunks[ax:]
+        leaf = {"op": "leaf", "shape": shape, "chunks": chunks, "dtype": "i8", "salt": salt[0] + rng.randint(0, 3)}
+        if rng.random() < 0.3:
+            leaf = {"op": "un", "f": rng.choice(["neg", "abs", "square"]), "a": leaf}
+        if kind == "bwc":
+            salt[0] += 1
+            ib = [ax] if rng.random() < 0.7 else []
+            q = {"op": "leaf", "shape": [n if rng.random() < 0.6 else 1 for _ in ib], "chunks": None, "dtype": "i8", "salt": salt[0]}
+            q["chunks"] = [cax if s == n else [1] for s in q["shape"]] if rng.random() < 0.6 else U.rand_chunks(rng, q["shape"])
+            p = {"op": "bwc", "a": leaf, "b": q, "axis": ax, "ib": ib, "conc": rng.random() < 0.3}
+        else:
+            p = {"op": kind, "a": leaf, "axis": ax}
+        for _ in range(rng.choice([0, 0, 1, 2])):
+            p = {"op": "un", "f": rng.choice(["neg", "abs", "square"]), "a": p} if rng.random() < 0.6 else \
+                {"op": "bin", "f": rng.choice(["add", "mul"]), "a": p, "b": {"op": "scalar", "v": rng.choice([1, 2, 3])}}
+        return p
+
+    k = rng.choice([2, 2, 2, 3])
+    prods = [producer() for _ in range(k)]
+    if rng.random() < 0.35:
+        # diamond: one producer reached through two different elementwise layers (same deterministic names)
+        d = prods[0]
+        prods[0] = {"op": "bin", "f": "add", "a": {"op": "un", "f": "neg", "a": d},
+                    "b": {"op": "bin", "f": "mul", "a": d, "b": {"op": "scalar", "v": 2}}}
+    rng.shuffle(prods)
+    c = prods[0]
+    for q in prods[1:]:
+        c = {"op": "bin", "f": rng.choice(["add", "add", "mul", "sub", "maximum"]), "a": c, "b": q}
+    for _ in range(rng.choice([0, 0, 1])):
+        c = {"op": "un", "f": rng.choice(["neg", "abs"]), "a": c}
+    return c
 
 
 def generate(ctx):
@@ -764,25 +930,39 @@ def generate(ctx):
     yield "lol", {"values": [[], 1]}
     yield "fuseann", {"anns": []}
     yield "fuseann", {"anns": [[["workers", ["set", [1, 2]]]], [["workers", ["set", [3]]]]]}
-    for _ in range(ctx.n(600, 6000)):
+    for _ in range(ctx.n(450, 6000)):
         yield "coordmap", {"spec": U.gen_layer_spec(rng, malformed=rng.random() < 0.08)}
     for _ in range(ctx.n(150, 1500)):
         n = rng.randint(0, 4)
         yield "lol", {"values": [([rng.randint(0, 3) for _ in range(rng.randint(0, 3))] if rng.random() < 0.45 else rng.randint(0, 4))
                                  for _ in range(n)]}
-    for _ in range(ctx.n(500, 5000)):
+    for _ in range(ctx.n(400, 5000)):
         yield "layer", {"spec": U.gen_layer_spec(rng, malformed=rng.random() < 0.05), "p": rng.choice([0.3, 0.6, 1.0])}
-    for _ in range(ctx.n(500, 5000)):
+    for _ in range(ctx.n(350, 5000)):
         yield "fuseann", {"anns": [gen_ann(rng) for _ in range(rng.randint(1, 4))]}
-    for _ in range(ctx.n(300, 3000)):
+    for _ in range(ctx.n(250, 3000)):
         yield "hlgcull", gen_hlg(rng)
     for _ in range(ctx.n(40, 400)):
         n = rng.randint(1, 6)
         steps = [{"op": rng.choice(["neg", "inc", "dbl", "self"]), "ann": gen_ann(rng, rich=rng.random() < 0.3)}
                  for _ in range(rng.randint(2, 4))]
         yield "annot", {"n": n, "chunks": [U.rand_comp(rng, n)], "steps": steps, "fuse": rng.random() < 0.85}
+    # function level: the rewrite_blockwise calls of optimize_blockwise for sibling-contraction programs and general stacks
+    for _ in range(ctx.n(100, 1200)):
+        yield "rewrite", {"prog": gen_siblings(rng)}
+    G2 = U.ProgGen(rng, STACK_W, leaf_dtypes=("i8", "f8"), maxdim=3, maxnd=3)
+    for _ in range(ctx.n(60, 800)):
+        p, _x = G2.gen(rng.randint(2, 5))
+        yield "rewrite", {"prog": p}
+    # structured stream: one consumer of >= 2 SIBLING contraction producers (contracted axes with unequal block
+    # counts, concatenate=None/True), diamonds (the same producer reached twice), second optimisation round
+    for _ in range(ctx.n(60, 700)):
+        p = gen_siblings(rng)
+        nb = rng.randint(1, 3)
+        yield "stack", {"prog": p, "blocks": [rng.randrange(64) for _ in range(nb)] if rng.random() < 0.7 else None,
+                        "inner": None, "stream": "siblings"}
     G = U.ProgGen(rng, STACK_W, leaf_dtypes=("i8", "i4", "f8"), maxdim=4, maxnd=3)
-    for _ in range(ctx.n(70, 700)):
+    for _ in range(ctx.n(60, 700)):
         p, x = G.gen(rng.randint(1, 4))
         nb = rng.randint(1, 4)
         inner = (["a"] + [rng.choice(["a", "a", "b"]) for _ in range(rng.choice([0, 0, 1]))]) if rng.random() < 0.6 else None
